@@ -488,11 +488,13 @@ impl AddressLookupServices {
     ///
     /// If there is historical Address Lookup data, it will be published immediately on this service.
     pub fn add_boxed(&self, service: Box<dyn AddressLookup>) {
-        {
-            let data = self.last_data.read().expect("poisoned");
-            if let Some(data) = &*data {
-                service.publish(data)
-            }
+        // Keep `last_data` locked until the service is registered. `publish` locks it
+        // exclusively for its whole duration, so a concurrent publish either completes
+        // before (its data is handed over here) or starts after (and finds the service
+        // registered). Otherwise the new service could miss the published data.
+        let data = self.last_data.read().expect("poisoned");
+        if let Some(data) = &*data {
+            service.publish(data)
         }
         #[cfg(iroh_verif)]
         iroh_base::verif::pause("address_lookup.add.before_push");
@@ -523,6 +525,10 @@ impl AddressLookupServices {
         };
         #[cfg(iroh_verif)]
         iroh_base::verif::pause("address_lookup.publish.start");
+        // Locked first and held until the data is stored: concurrent publishes are
+        // serialized, so all services and `last_data` agree on which data is the latest,
+        // and no service can be added in between (see `add_boxed`).
+        let mut last_data = self.last_data.write().expect("poisoned");
         let services = self.services.read().expect("poisoned");
         for service in &*services {
             service.publish(&data);
@@ -530,10 +536,7 @@ impl AddressLookupServices {
 
         #[cfg(iroh_verif)]
         iroh_base::verif::pause("address_lookup.publish.before_store");
-        self.last_data
-            .write()
-            .expect("poisoned")
-            .replace(data.into_owned());
+        last_data.replace(data.into_owned());
     }
 
     /// Resolves the addressing information for an [`EndpointId`] across all configured services.
